@@ -2,6 +2,7 @@
 //! and re-encodes what it observed as ndjson events for the TLA+ trace specs.
 //! A panic in the code under test is data (an event), never a harness failure.
 mod checkops;
+mod checkschema;
 mod cli;
 mod debug;
 mod determ;
@@ -36,6 +37,7 @@ fn main() {
     let rc = match args[1].as_str() {
         "paths" => paths::run(rest),
         "checkops" => checkops::run(rest),
+        "checkschema" => checkschema::run(rest),
         "cliproj" => cli::run(rest),
         "debug" => debug::run(rest),
         "determ" => determ::run(rest),
